@@ -29,6 +29,7 @@ type Gen struct {
 	// per run: the optimisation type of each vector field and the similarity of vecB (a field keeps
 	// them across the segments of one index, so they are fixed for the whole script)
 	vecOpt     map[string]string
+	recent     []string // in-memory segments of the last builds (revisitEarlier)
 	vecBMetric string
 	// scripts for the frozen corpus query reopened segments only
 	reopenedOnly bool
@@ -212,6 +213,11 @@ func (g *Gen) randBatch(name string, cfg batchCfg) *BatchSpec {
 			names = append(names, fn)
 			toks, ln := g.randToks(&cfg, nil, false)
 			f := FieldSpec{Kind: "fld", Name: fn, Typ: 't', Stored: g.chance(0.5), DV: dvFields[fn], Len: ln, Toks: toks}
+			if g.chance(0.2) {
+				// the encoded field type is an arbitrary byte: the usual letters, and values whose varint
+				// takes two bytes
+				f.Typ = []byte{'n', 'd', 'b', 'g', 'i', 0, 0x7f, 0x80, 0xe9, 0xff}[g.r.Intn(10)]
+			}
 			if g.chance(0.05) {
 				f.DV = !f.DV
 			}
@@ -368,6 +374,29 @@ func (g *Gen) newBuilt(seg string, b *BatchSpec) {
 	u.addBatch(b)
 	g.univ[seg] = u
 	g.ndocs[seg] = len(b.Docs)
+}
+
+// revisitEarlier: segments built in memory one, two and three builds ago (on the same plugin, i.e.
+// by the same pooled builder) are read again after the build of `cur`: a built segment owns its
+// bytes and its tables, whatever is built after it.  The fourth-last is closed.
+func (g *Gen) revisitEarlier(cur string, index bool) {
+	for _, old := range g.recent {
+		g.emit("q count %s", old)
+		g.emit("q fields %s", old)
+		g.dumpStored(old)
+		if index {
+			g.emit("q dvfields %s", old)
+			u := g.univ[old]
+			for _, f := range sortedFieldNames(u.Fields) {
+				g.emit("q dict %s %s aut=all lo=* hi=* probe=-", old, f)
+			}
+		}
+	}
+	g.recent = append(g.recent, cur)
+	if len(g.recent) > 3 {
+		g.emit("close %s", g.recent[0])
+		g.recent = g.recent[1:]
+	}
 }
 
 func (g *Gen) alias(newSeg, old string) {
@@ -715,6 +744,7 @@ func (g *Gen) genC02(n int) error {
 		s := g.fresh("s")
 		g.emit("build %s %s", s, b.Name)
 		g.newBuilt(s, b)
+		g.revisitEarlier(s, false)
 		g.emit("q count %s", s)
 		g.emit("q fields %s", s)
 		g.dumpStored(s)
@@ -862,6 +892,7 @@ func (g *Gen) genC04(n int) error {
 		s := g.fresh("s")
 		g.emit("build %s %s", s, b.Name)
 		g.newBuilt(s, b)
+		g.revisitEarlier(s, true)
 		f := g.fresh("f")
 		if g.chance(0.15) {
 			// a longer file of an earlier, bigger segment is at the path already
@@ -903,7 +934,6 @@ func (g *Gen) genC04(n int) error {
 		g.emit("q keepfields %s %s", o, kf)
 		g.emit("close %s", o)
 		g.emit("showkept %s", kf)
-		g.emit("close %s", s)
 		g.emit("rmfile %s", f)
 		g.st("case")
 	}
